@@ -256,7 +256,7 @@ def kind_of(key: Key) -> str:
 
 class Pending:
     __slots__ = ("kind", "target", "d", "k0", "earliest", "latest", "interrupted", "merged", "completed", "open",
-                 "values", "excluded", "event_overlap", "new", "flagged", "scan_overlap", "items0", "grace")
+                 "values", "excluded", "event_overlap", "new", "flagged", "scan_overlap", "items0", "grace", "stuck_c", "stuck_d")
 
     def __init__(self, kind: str, target: Optional[str], d: int, k0: int):
         self.kind, self.target, self.d, self.k0 = kind, target, d, k0
@@ -274,6 +274,8 @@ class Pending:
         self.scan_overlap = False
         self.items0: set = set()
         self.grace = 0
+        self.stuck_c: set = set()  # restore: files of the folder CORRUPT at every snapshot since the request
+        self.stuck_d: set = set()  # restore: files of the folder deleted at every snapshot since the request
 
     def covers(self, key: Key) -> bool:
         if key[0] == "node":
@@ -442,6 +444,13 @@ def run_case(case: Dict) -> CaseResult:
                 if created.d == 0:
                     stats["d0_ops"] += 1
                 created.items0 = {k for k, v in cur.items() if k[0] != "node" and not v["del"]}
+                if created.kind == "restore":
+                    for k, v in cur.items():
+                        if k[0] == "fi" and k[1] == created.target:
+                            if v["del"]:
+                                created.stuck_d.add(k)
+                            elif v["a"] == "CORRUPT":
+                                created.stuck_c.add(k)
                 for p in pend:
                     if p.kind == created.kind and p.target == created.target and p.kind != "fix":
                         # second request while the first is pending: restart and ignore are both accepted
@@ -455,6 +464,8 @@ def run_case(case: Dict) -> CaseResult:
                         for k, vs in p.values.items():
                             created.values.setdefault(k, set()).update(vs)
                         created.excluded |= p.excluded
+                        created.stuck_c |= p.stuck_c
+                        created.stuck_d |= p.stuck_d
                         stats["merged"] += 1
                 pend = [p for p in pend if not (p.kind == created.kind and p.target == created.target)]
                 pend.append(created)
@@ -693,9 +704,31 @@ def run_case(case: Dict) -> CaseResult:
                         p.values.setdefault(key, set()).update((prev[key]["a"], now["a"]))
                         if volatile(key):
                             p.excluded.add(key)  # an intermediate value the snapshots cannot show
+        for p in pend:
+            if p.kind == "restore":
+                p.stuck_c = {k for k in p.stuck_c if k in cur and cur[k]["a"] == "CORRUPT" and not cur[k]["del"]}
+                p.stuck_d = {k for k in p.stuck_d if k in cur and cur[k]["del"]}
         if is_tick:
             for p in pend:
-                if p.completed is not None or p.interrupted or p.flagged or kt != p.latest:
+                if p.interrupted or p.flagged:
+                    continue
+                seen_now = p.kind == "restore" and p.completed == kt
+                if kt != p.latest and not seen_now:
+                    continue
+                if p.completed is not None and not seen_now:
+                    continue
+                if p.kind == "restore" and (p.stuck_c or p.stuck_d):
+                    # whatever else was requested on the folder meanwhile (scan, corrupt, repair, another restore): an
+                    # accepted restore has repaired every corrupt file and brought back every deleted file by now
+                    k = sorted(p.stuck_c | p.stuck_d)[0]
+                    res.violate(f"restore-not-complete-by-deadline:{p.dclass()}",
+                                f"{when}: {kt - p.k0} tick(s) after the restore request on folder {p.target} (restore "
+                                f"duration {p.d}) {k} has been {'CORRUPT' if k in p.stuck_c else 'deleted'} at every "
+                                f"step since the request ({len(p.stuck_c | p.stuck_d)} file(s) never restored; folder "
+                                f"health {cur.get(('fo', p.target), {}).get('a')})")
+                    p.flagged = True
+                    continue
+                if p.completed is not None:
                     continue
                 if p.kind == "fix":
                     if cur[("sw", p.target)]["a"] == "FIXING":
@@ -885,7 +918,7 @@ def phrase_strategy():
         verb = st.sampled_from(["restore", "fsrestore"])
         head = st.tuples(pre, verb).map(lambda t: t[0] + [["folder", f, t[1]]])
         focus = st.one_of(fop, st.just(["folder", f, "restore"]), st.just(["folder", f, "scan"]),
-                          st.just(["folder", f, "corrupt"]))
+                          st.just(["folder", f, "corrupt"]), st.just(["folder", f, "repair"]))
         return st.tuples(head, _mix(focus)).map(lambda t: t[0] + t[1])
 
     power = st.tuples(
@@ -932,7 +965,7 @@ def enumerated_cases():
     interf = [["sw", "dns-server", "compromise"], ["file", "fa", "x.txt", "corrupt"], ["file", "fa", "x.txt", "scan"],
               ["sw", "dns-server", "scan"], ["folder", "fa", "scan"], ["os_scan"], ["file", "fa", "x.txt", "repair"],
               ["sw", "dns-server", "fix"], ["folder", "fa", "restore"], ["power", "reset"], ["power", "shutdown"],
-              ["sw", "web-browser", "compromise"], ["folder", "fa", "corrupt"]]
+              ["sw", "web-browser", "compromise"], ["folder", "fa", "corrupt"], ["folder", "fa", "repair"]]
     for d in DUR:
         progs = {
             "fix": (base_cfg_case(fix={n: d for n in SW}),
@@ -954,6 +987,12 @@ def enumerated_cases():
             "fsrestore": (base_cfg_case(frestore=d), [["file", "fa", "x.txt", "corrupt"], ["folder", "fa", "delete"],
                                                       ["folder", "fa", "fsrestore"]]),
         }
+        # a folder scan that completes while a restore of the same folder is in flight (it rewrites the folder's health)
+        progs["restore-with-scan"] = (base_cfg_case(frestore=d, fscan=1),
+                                      [["folder", "fa", "corrupt"], ["folder", "fa", "restore"], ["folder", "fa", "scan"]])
+        progs["restore-with-scan-db"] = (base_cfg_case(frestore=d, fscan=1),
+                                         [["db", "ENCRYPT"], ["folder", "database", "restore"], ["db", "ENCRYPT"],
+                                          ["folder", "database", "scan"]])
         dbfix = ["sw", "database-service", "fix"]
         dbf = ["file", "database", "database.db"]
         cfgd = base_cfg_case(fix={n: d for n in SW})
@@ -981,9 +1020,9 @@ def worker(ctx: Ctx):
     if ctx.idx == 0:
         ctx.extra["enumerated_family_cases"] = len(cases)
         ctx.extra["enumerated_family"] = (
-            "11 programs (service/application/defaults/option+defaults fix, folder scan on created/root/database folder, node scan "
+            "17 programs (service/application/defaults/option+defaults fix, restore with a scan completing inside it, database restore after delete, folder scan on created/root/database folder, node scan "
             "via node key / defaults key, folder restore, fs-level restore of a deleted folder) x durations "
-            "{0,1,2,3,5}: straight line, and with each of 13 interfering events at every tick position"
+            "{0,1,2,3,5}: straight line, and with each of 14 interfering events at every tick position"
             + ("" if ctx.tier == "thorough" else " (quick: every straight-line case, every 2nd interference case)")
         )
     n = 200 if ctx.tier == "quick" else 6000
